@@ -131,8 +131,10 @@ def run(ctx, prop, props_files, fams, oracle_names, assumptions, level_rule, mod
                 stats["model:outside_dialect"] += 1
                 continue
             ncore += 1
-            if kind == "second":
+            if kind in ("second", "team"):
                 stats["model:subslot"] += 1
+            if kind == "team":
+                stats["model:subslot_team"] += 1
             if d and model_is_oracle:
                 # the model IS the reference the property names (C07): a disagreement is the failing input
                 bad.append((ap, {"what": MODEL_WHAT, "disagreements": d[:4]}, r))
